@@ -216,8 +216,8 @@ def _graph(r, cyc):
 NEST = ["f(", "calc(", "rgb(", "not(", "(", "[", "{", "url(", "var(", "var(v,", "var(v, ", "a{", "@media print{", ":not(", "@page{", "\"", "/*"]
 # 'repeat' documents: one token many times inside a context that may never be closed (regular-expression and
 # production loops whose cost depends on how often a token repeats)
-REP_PREFIX = ["a{font-family:", "a{voice-family:", "a{font:12px ", "a{content:", "a{margin:", "a{background:", "a{transition:", "@font-face{src:", "@media ", "@import 'x' ", "@page :", "", "/*", "url(", "a{x:url(", "\"", "'", "a{x:", "@x ", "a[", "@media ", "a{x:'", "@import url(", "a:", "@charset \"", "<!--", "a{x:f(", "@page :", "@namespace "]
-REP_TOKEN = ["é", "é ", "a ", "a, ", "1 ", "1px ", "\"a\" ", "\"a\", ", "url(x) ", "f(1) ", "a b, ", "ſ", "(color) and ", "tv, ", "*", "\\z", "\\)", "\\41 ", "\\41", "\\\n", "\\", "a", " ", "\n", "-", "+", ".", "1", "1.", "/", "/*", "*/", "(", ")", "'", "\"", ",", ";", ":", "!", "#", "@", "|", "u+", "\\2d", "é", "\t", "\x0c", "<!--", "-->", "* ", "*/*", "\\a\n"]
+REP_PREFIX = ["a{list-style:", "a{page:", "a{counter-reset:", "a{cursor:", "a{quotes:", "a{text-shadow:", "a{border:", "a{src:", "a{font-family:", "a{voice-family:", "a{font:12px ", "a{content:", "a{margin:", "a{background:", "a{transition:", "@font-face{src:", "@media ", "@import 'x' ", "@page :", "", "/*", "url(", "a{x:url(", "\"", "'", "a{x:", "@x ", "a[", "@media ", "a{x:'", "@import url(", "a:", "@charset \"", "<!--", "a{x:f(", "@page :", "@namespace "]
+REP_TOKEN = ["inherit ", "normal ", "none ", "male,", "0 ", "center ", "a\\1", "\\1", "url(\"a b\") ", "#1e3\\a", "é", "é ", "a ", "a, ", "1 ", "1px ", "\"a\" ", "\"a\", ", "url(x) ", "f(1) ", "a b, ", "ſ", "(color) and ", "tv, ", "*", "\\z", "\\)", "\\41 ", "\\41", "\\\n", "\\", "a", " ", "\n", "-", "+", ".", "1", "1.", "/", "/*", "*/", "(", ")", "'", "\"", ",", ";", ":", "!", "#", "@", "|", "u+", "\\2d", "é", "\t", "\x0c", "<!--", "-->", "* ", "*/*", "\\a\n"]
 CHARSET_NAMES = ["rot13", "hex", "idna", "undefined", "css", "utf-7", "punycode", "unicode_escape", "raw_unicode_escape", "base64", "zlib", "bz2", "uu", "quopri", "utf-8-sig", "utf-16", "utf-32", "utf-16-be", "ascii", "latin-1", "cp1252", "koi8-r", "big5", "shift_jis", "iso2022_jp", "hz", "x-unknown", "utf-8", "UTF-8", "mbcs", "oem"]
 REP_SUFFIX = ["", "", " x", ")", "}", "*/", "\"", ";", "{}"]
 
